@@ -252,6 +252,11 @@ impl PseudoFs {
         if ino == inode.parent {
             return;
         }
+        // A directory that still has children leads to other mount points: removing
+        // it would orphan them (and leave a state that cannot be restored).
+        if !inode.children.load().is_empty() {
+            return;
+        }
 
         let parent = inodes.get(&inode.parent).unwrap();
         parent.remove_child(inode.clone());
